@@ -73,7 +73,7 @@ func (g *Gen) Token() string {
 	return fmt.Sprintf("zq%dx%s", g.serial, g.letters(g.rng(5, 7)))
 }
 
-var dressings = []string{"ascii", "ascii", "ascii", "space", "unicode", "astral", "dollar", "digits", "escape", "html", "long", "empty", "jsonish", "b64ish", "upper", "pad", "pademail", "bslash", "addr", "lookalike"}
+var dressings = []string{"ascii", "ascii", "ascii", "space", "unicode", "astral", "dollar", "digits", "escape", "html", "long", "empty", "jsonish", "b64ish", "upper", "pad", "pademail", "bslash", "addr", "lookalike", "percent"}
 
 // SensString returns the contents of a sensitive ordinary string.
 func (g *Gen) SensString() string {
@@ -120,6 +120,9 @@ func (g *Gen) Dress(d string) string {
 		return ""
 	case "jsonish":
 		return `{"` + t + `":[1,"x"]}`
+	case "percent":
+		// percent signs: URL-encoded text, LIKE patterns, prices - and printf verbs for anything that formats with it
+		return t + g.pick(" 50% off", "%20name", " %smith%", " 5%%", " 100%d %v %s", "%", " %!s(MISSING)", " %[1]q %x")
 	case "lookalike":
 		// text that contains what looks like JSON / shell-syntax tokens between delimiters (a $where body, an
 		// error text pasted into a field): inside a string literal it is just characters
